@@ -38,7 +38,7 @@ func tText(c context, s []byte) (context, int) {
 			return c, len(s)
 		} else if i+4 <= len(s) && bytes.Equal(commentStart, s[i:i+4]) {
 			// The comment is inside the element that the text is in.
-			return context{state: stateHTMLCmt, element: c.element, enclosing: c.enclosing}, i + 4
+			return context{state: stateHTMLCmt, element: c.element, enclosing: c.enclosing, inNoscript: c.inNoscript}, i + 4
 		}
 		i++
 		end := false
@@ -56,7 +56,10 @@ func tText(c context, s []byte) (context, int) {
 				// space, "/" or ">", so e.name is only a prefix of it.
 				e.continued = true
 			}
-			ret := context{state: stateTag, enclosing: c.enclosing}
+			ret := context{state: stateTag, enclosing: c.enclosing, inNoscript: c.inNoscript}
+			if e.name == "noscript" {
+				ret.inNoscript = !end
+			}
 			// Element name not needed if we are at the end of the element.
 			if !end {
 				ret.element = e
@@ -96,11 +99,11 @@ var specialElements = map[string]bool{
 	"textarea": true,
 	"title":    true,
 	// Raw text for an HTML parser as well: nothing inside them is a tag or a comment
-	// until their end tag (noscript: when scripting is enabled).
+	// until their end tag. (noscript is raw text only when scripting is enabled, see
+	// context.inNoscript.)
 	"iframe":   true,
 	"noembed":  true,
 	"noframes": true,
-	"noscript": true,
 	"xmp":      true,
 }
 
@@ -153,6 +156,7 @@ func tTag(c context, s []byte) (context, int) {
 			scriptType: c.scriptType,
 			linkRel:    c.linkRel,
 			enclosing:  c.enclosing,
+			inNoscript: c.inNoscript,
 		}
 		// The element names of other conditional branches count as well.
 		names := c.element.names
@@ -198,11 +202,12 @@ func tTag(c context, s []byte) (context, int) {
 		state = stateAfterName
 	}
 	return context{
-		state:     state,
-		element:   c.element,
-		attr:      attr{name: strings.ToLower(string(s[i:j]))},
-		linkRel:   c.linkRel,
-		enclosing: c.enclosing,
+		state:      state,
+		element:    c.element,
+		attr:       attr{name: strings.ToLower(string(s[i:j]))},
+		linkRel:    c.linkRel,
+		enclosing:  c.enclosing,
+		inNoscript: c.inNoscript,
 	}, j
 }
 
@@ -286,10 +291,10 @@ func tHTMLCmt(c context, s []byte) (context, int) {
 	// A comment ends with "-->" or with "--!>".
 	i := bytes.Index(s, commentEnd)
 	if j := bytes.Index(s, commentEndBang); j != -1 && (i == -1 || j < i) {
-		return context{element: c.element, enclosing: c.enclosing}, j + 4
+		return context{element: c.element, enclosing: c.enclosing, inNoscript: c.inNoscript}, j + 4
 	}
 	if i != -1 {
-		return context{element: c.element, enclosing: c.enclosing}, i + 3
+		return context{element: c.element, enclosing: c.enclosing, inNoscript: c.inNoscript}, i + 3
 	}
 	return c, len(s)
 }
@@ -304,7 +309,7 @@ var (
 func tSpecialTagEnd(c context, s []byte) (context, int) {
 	if specialElements[c.element.name] {
 		if i := indexTagEnd(s, []byte(c.element.name)); i != -1 {
-			return context{enclosing: c.enclosing}, i
+			return context{enclosing: c.enclosing, inNoscript: c.inNoscript}, i
 		}
 	}
 	return c, len(s)
